@@ -46,6 +46,12 @@ def check(ctx: Ctx) -> None:
            "collector's inputs: every handler in a function GarbageCollector.collect reaches (outside the collector itself)", 10, 12)
     from .c14 import parsers_keep_every_entry
     parsers_keep_every_entry(ctx, "C07.R9")
+    from .c20 import r10_listing_exhaustive
+    r10_listing_exhaustive(ctx, "C07.R10")
+    from .c20 import r2 as c20_r2
+    ctx.shared(c20_r2, "C20.R2", "C07.R11", "an unreadable (403 / throttled) marker or manifest is not a missing one")
+    from .c20 import r12_stream_faithful
+    r12_stream_faithful(ctx, "C07.R12")
 
 
 def _assigns(ctx: Ctx, f: FunctionInfo, h: ast.ExceptHandler, name: str, value: object) -> bool:
